@@ -1,6 +1,6 @@
 module verif/harness
 
-go 1.18
+go 1.21
 
 require (
 	github.com/bytedance/gopkg v0.1.1
